@@ -187,8 +187,9 @@ def judge(res, sk, neg_aigp, intent, exp, text, wit, cls, kind, nbucket):
 
 
 
-def run_daemon(desc):
-    """the same oracle over the REAL daemon: python -m exabgp server, a forked helper reading the JSON events from its pipe,
+def run_daemon(desc, deliver=None):
+    """(deliver: how the octets of a message are handed to the socket; C06 passes a segmenting sender)
+    the same oracle over the REAL daemon: python -m exabgp server, a forked helper reading the JSON events from its pipe,
     the UPDATEs sent over TCP by a scripted peer.  Nothing of ExaBGP runs in this process besides the (separate) in-process
     negotiation used to learn which families take a path identifier"""
     from vlib import daemon
@@ -220,9 +221,15 @@ def run_daemon(desc):
             except rw.RefError:
                 continue
             sent.append((body, intent))
-            peer.send(2, body)
+            if deliver is None:
+                peer.send(2, body)
+            else:
+                deliver(peer, rw.message(2, body), False)
         marker = rw.enc_update_body(b'', rw.enc_attr(0x40, 1, b'\x00') + rw.enc_attr(0x40, 2, b'' if sk['ibgp'] else (bytes([2, 1]) + (struct.pack('!L', pas) if sk['asn4'] else struct.pack('!H', pas)))) + rw.enc_attr(0x40, 3, bytes([192, 0, 2, 1])) + (rw.enc_attr(0x40, 5, struct.pack('!L', 100)) if sk['ibgp'] else b''), (b'\x00\x00\x00\x01' if (1, 1) in recv_ap else b'') + bytes([32, 203, 0, 113, 255]))
-        peer.send(2, marker)
+        if deliver is None:
+            peer.send(2, marker)
+        else:
+            deliver(peer, rw.message(2, marker), True)
         lines = d.wait_lines('events', lambda ls: any('203.0.113.255' in x for x in ls), timeout=60)
         rest = peer.drain(quiet=0.2, limit=2)
         if any(t == 3 for t, _ in rest):
